@@ -93,6 +93,21 @@ def run_history(ops):
                                     fail = f'copy with overrides {kw} = {c!r}, a fresh message with those values is {fresh!r}'
                         except Exception as e:
                             fail = f'copy accepted overrides {kw} that a fresh construction rejects ({type(e).__name__})'
+                    if kw and fail is None:
+                        # the same VALID overrides with the skip_checks flag (where the class takes it): same message
+                        try:
+                            c2 = src.copy(skip_checks=True, **kw)
+                        except Exception:
+                            c2 = None
+                        if c2 is not None:
+                            if type(c2) is not type(c) or vars(c2) != vars(c) or \
+                                    any(type(v) is not type(vars(c)[n]) for n, v in vars(c2).items()):
+                                fail = f'copy(skip_checks=True, **{kw}) = {c2!r} with attributes {vars(c2)}, without the flag {vars(c)}'
+                            elif is_frozen(c2):
+                                try:
+                                    hash(c2)
+                                except Exception as e:
+                                    fail = f'frozen copy(skip_checks=True, **{kw}) cannot be hashed: {type(e).__name__}'
             elif k == 'freeze':
                 src = None if op[1] is None else pool[op[1]]
                 f = freeze_message(src)
